@@ -68,6 +68,9 @@ pub struct GraphEngine {
     published_labels: RwLock<Arc<LabelSnapshot>>,
     published_node_labels: RwLock<Arc<Vec<Vec<LabelId>>>>,
     write_lock: Mutex<()>,
+    /// Held for writing while a commit or compaction replaces the published state and for
+    /// reading while a snapshot copies it, so that a snapshot never sees a half-published change.
+    publish_lock: RwLock<()>,
     next_txid: AtomicU64,
     next_segment_id: AtomicU64,
     manifest_epoch: AtomicU64,
@@ -153,6 +156,7 @@ impl GraphEngine {
             published_labels: RwLock::new(Arc::new(label_snapshot)),
             published_node_labels: RwLock::new(Arc::new(node_labels_snapshot)),
             write_lock: Mutex::new(()),
+            publish_lock: RwLock::new(()),
             next_txid: AtomicU64::new(state.max_txid.saturating_add(1).max(1)),
             next_segment_id: AtomicU64::new(max_seg_id.saturating_add(1).max(1)),
             manifest_epoch: AtomicU64::new(state.manifest_epoch),
@@ -246,6 +250,18 @@ impl GraphEngine {
     }
 
     pub fn begin_read(&self) -> Snapshot {
+        #[cfg(nervusdb_verif)]
+        let _vhp = crate::verif::acquire("publish_lock.r");
+        let _publish = self.publish_lock.read().unwrap();
+        self.begin_read_published()
+    }
+
+    pub(crate) fn publish_read(&self) -> std::sync::RwLockReadGuard<'_, ()> {
+        self.publish_lock.read().unwrap()
+    }
+
+    /// Copies the published state; the caller holds `publish_lock`.
+    pub(crate) fn begin_read_published(&self) -> Snapshot {
         #[cfg(nervusdb_verif)]
         crate::verif::touch("published_runs.r");
         let runs = self.published_runs.read().unwrap().clone();
@@ -636,6 +652,9 @@ impl GraphEngine {
         crate::verif::point("compact.logged");
 
         // 4. Update memory state
+        #[cfg(nervusdb_verif)]
+        let _vhp = crate::verif::acquire("publish_lock.w");
+        let publish = self.publish_lock.write().unwrap();
         self.checkpoint_txid.store(up_to_txid, Ordering::SeqCst);
         self.properties_root.store(current_root, Ordering::SeqCst);
         #[cfg(nervusdb_verif)]
@@ -657,6 +676,9 @@ impl GraphEngine {
             let mut cur_segs = self.published_segments.write().unwrap();
             *cur_segs = new_segments;
         }
+        drop(publish);
+        #[cfg(nervusdb_verif)]
+        drop(_vhp);
         #[cfg(nervusdb_verif)]
         crate::verif::point("compact.segments");
 
@@ -1319,6 +1341,9 @@ impl<'a> WriteTxn<'a> {
         let has_label_removals = !self.pending_label_removals.is_empty();
 
         // 3. Apply created nodes to IdMap / Node Index
+        #[cfg(nervusdb_verif)]
+        let _vhp = crate::verif::acquire("publish_lock.w");
+        let publish = self.engine.publish_lock.write().unwrap();
         {
             #[cfg(nervusdb_verif)]
             let _vh35 = crate::verif::acquire("idmap");
@@ -1349,6 +1374,9 @@ impl<'a> WriteTxn<'a> {
         if !run.is_empty() {
             self.engine.publish_run(Arc::new(run));
         }
+        drop(publish);
+        #[cfg(nervusdb_verif)]
+        drop(_vhp);
         #[cfg(nervusdb_verif)]
         crate::verif::point("commit.run");
 
